@@ -1,8 +1,6 @@
 """C15 - dynamics follow their equations; the NLS linearisation is exact at the reference point."""
 import functools
 import json
-import math
-import os
 
 import numpy as np
 import sympy as sp
@@ -10,67 +8,73 @@ import torch
 import pypose as pp
 from hypothesis import strategies as st
 
-from ..core import Sub, load_known
+from ..core import Sub
 from ..ref import dynamics as RD
 from .. import tu
 
 PROPERTY = "C15"
 RULE = (
     "lti_ltv: pp.module.LTI and an LTV subclass with time-indexed stacks (the LTV docstring recipe "
-    "self._A[..., self._t % T, :, :], also for c1/c2), dims n,m,p in 1..6, batch shape () / (1,) / (2,) / (3,) "
-    "chosen independently for each of A,B,C,D,c1,c2,x,u, c1/c2 optionally None, float64/float32 data expanded from "
-    "a drawn integer seed, start time set by reset/systime, 1..4 consecutive calls; outputs must equal "
-    "A x + B u + c1 and C x + D u + c2 of the harness's own numpy einsum (LTV: matrices indexed by the reference "
-    "clock at call time) within 8 (n+m+2) eps (|A||x|+|B||u|+|c1|) componentwise, and the clock must read +1 after "
-    "each call. clock: one LTI / LTV / NLS object driven by a Hypothesis-generated JSON op list (1..24 ops) over "
-    "the rules forward(x,u), reset(t), reset(), systime = t (int and 0-D tensor), set_refpoint with every "
-    "None-combination of (state,input,t), plus the observation 'lin' (read A,B,C,D,c1,c2); reference = integer "
-    "clock (+1 per call, reset/assignment set it); after every op int(systime) must equal the model; after "
-    "set_refpoint(t given) both readings 'time unchanged' and 'time = t' are accepted (undocumented) and the "
-    "model resynchronises, with t=None the time must be unchanged; forward outputs are compared with the "
-    "reference equations evaluated at the model time; LTV: after set_refpoint(t=k) the properties A..c2 are the "
-    "k-th matrices; NLS: after set_refpoint the linearisation is compared with sympy Jacobians at the tracked "
-    "reference point. nls: random f,g as sympy expression trees (sums of <=3 products of powers x^k,u^k (k<=3), "
-    "sin/cos(w x), sin/cos(w u), t/8, sin/cos(w t)), n,m,p in 1..4, lambdified to torch shape-agnostically in t; "
-    "reference points incl. zero state / zero input, t* int64 or float64 tensor, current time set through "
-    "reset/systime/forward calls, every None-combination of set_refpoint arguments, optional forward between "
-    "set_refpoint and reading; A,B,C,D must equal the symbolic partial Jacobians (|err| <= 1e-9 max(1,|J|)), "
-    "A x*+B u*+c1 = f(x*,u*,t*) and C x*+D u*+c2 = g within 64 eps (sum|terms| + |A||x*|+|B||u*|+|c1|), the affine "
-    "model's error E(d) along a random unit direction obeys the Taylor bound E(d) <= 1.1 (d^2/2)(sup|phi''| + "
-    "d sup|phi'''|/32) for d = delta, delta/4 (delta in {0.1,0.05,0.02,0.01}) and E(dr/4)/E(dr) <= 0.13 for "
-    "dr = min(delta, 0.75 |phi''(0)|/sup|phi'''|) (regime in which 2nd order provably dominates; skipped when "
-    "E(dr) < 1e-9 or phi''(0) = 0). linalg: bmv/bvv/bvmv on broadcastable batch shapes (rank <= 3, extents 1..3, "
-    "dims 1..5, float64/float32) equal numpy einsum within 8 (n+m) eps |.||.|, shapes as documented. "
+    "self._A[..., self._t % T, :, :], also for c1/c2), dims n,m,p in 1..6, a full batch shape of rank 0..3 (extents 1..3; "
+    "rank >= 2 has about a quarter of the quick budget) and for each of A,B,C,D,c1,c2,x,u its own batch shape: modes "
+    "all / mats only / vecs only / mix (each operand independently full or unbatched) / bcast (each operand independently "
+    "full, unbatched, a trailing part of the full shape, or the full shape with extents replaced by 1); c1/c2 optionally "
+    "None, float64/float32 data expanded from a drawn integer seed, start time set by reset/systime, 1..4 consecutive "
+    "calls; outputs must equal A x + B u + c1 and C x + D u + c2 of the harness's own numpy einsum (broadcast over the "
+    "batch axes; LTV: matrices indexed by the reference clock at call time) within 8 (n+m+2) eps (|A||x|+|B||u|+|c1|) "
+    "componentwise, and the clock must read +1 after each call (the reference clock starts from the value a new system "
+    "shows: only the NLS docstring states 0). clock: one LTI / LTV / NLS object driven by a Hypothesis-generated JSON op "
+    "list (1..24 ops, thorough 1..60) over the rules forward(x,u), reset(t) (int or caller-held int64 tensor), reset(), "
+    "systime = t (int and 0-D tensor), set_refpoint with every None-combination of (state,input,t) for all three kinds, "
+    "plus the observation 'lin' (read A,B,C,D,c1,c2); the NLS is one of 6 hand-written systems or (1/6 of the NLS cases "
+    "quick, 1/3 thorough) a random expression tree as in 'nls' with n,m,p <= 3; LTI/LTV unbatched, or batch (2,) / (3,2) "
+    "on all operands / on the matrices only / on x,u only; reference = integer clock (+1 per call, reset/assignment set "
+    "it); after every op int(systime) must equal the model; after set_refpoint(t given) both readings 'time unchanged' "
+    "and 'time = t' are accepted (undocumented) and the model resynchronises to the observed one, with t=None the time "
+    "must be unchanged; forward outputs are compared with the reference equations evaluated at the model time; LTI/LTV: "
+    "after set_refpoint and at 'lin' the properties A..c2 are the matrices of the OBSERVED clock value; NLS: after "
+    "set_refpoint and at every 'lin' (also after the clock moved on) the linearisation is compared with sympy Jacobians "
+    "at the tracked reference point (x*, u*, t* or the time at which set_refpoint(t=None) was called). set_refpoint must "
+    "return the module (documented); reset must return the system or an instance of its class showing the time set (the "
+    "NLS docstring example chains it). nls: random f,g as sympy expression trees (sums of <=3 products of powers "
+    "x^k,u^k (k<=3), sin/cos(w x), sin/cos(w u), t/8, sin/cos(w t)), n,m,p in 1..4, lambdified to torch "
+    "shape-agnostically in t; float64 (2/3) or float32 (1/3) states; reference points incl. zero state / zero input, t* "
+    "an integer value as int64 or float64 tensor, current time set through reset/systime/forward calls, every "
+    "None-combination of set_refpoint arguments, optional forward between set_refpoint and reading; float64: A,B,C,D "
+    "must equal the symbolic partial Jacobians (|err| <= 1e-9 max(1,|J|)), A x*+B u*+c1 = f(x*,u*,t*) and C x*+D u*+c2 = g "
+    "within 64 eps (sum|terms| + |A||x*|+|B||u*|+|c1|); float32: derived componentwise tolerances 2 eps S with S the "
+    "first-order round-off scale of the term list / of its product-rule derivative paths (vp/ref/dynamics.py: powers "
+    "k+1, sin/cos |argument|+2 relative to the bound 1, one eps per product and per addend) plus 8 (n+m+2) eps "
+    "(|A||x*|+|B||u*|+|c1|) for c1 = f* - A x* - B u*; the affine model's error E(d) along a random unit direction obeys "
+    "the Taylor bound E(d) <= 1.1 (d^2/2)(sup|phi''| + d sup|phi'''|/32) + round-off for d = delta, delta/4 (delta in "
+    "{0.1,0.05,0.02,0.01}) and E(dr/4)/E(dr) <= 0.13 for dr = min(delta, 0.75 |phi''(0)|/sup|phi'''|) (regime in which "
+    "2nd order provably dominates; skipped when E(dr) < 1e-9, phi''(0) = 0, or in float32 E(dr) < 64 x round-off). "
+    "linalg: bmv/bvv/bvmv on broadcastable batch shapes (rank <= 3, extents 1..3, dims 1..5, float64/float32) equal "
+    "numpy einsum within 8 (n+m) eps |.||.|, shapes as documented. "
     "Non-trivial: clock histories mixing >= 3 different rule families; NLS with time-dependent f or g and "
     "t* != current system time; LTI/LTV with at least one batched matrix (or LTV started at t0 > 0); linalg with "
-    "differing operand batch shapes. Distinct = (sub-check, kind, dims, batch pattern / rule set and None "
-    "patterns / atom-kind set, argument pattern, dtype).")
+    "differing operand batch shapes. Distinct = (sub-check, kind, dims, per-operand batch shapes / rule set and None "
+    "patterns / system (library index or tree dims + atom-kind set), argument pattern, dtype).")
 ASSUMPTIONS = [
-    "time values are non-negative integers (int or 0-D int64 tensor); NLS reference time is a 0-D int64 or float64 tensor "
-    "(documented type Tensor; the cart-pole test passes a float time)",
+    "time values are non-negative integers: int or 0-D int64 tensor; the NLS reference time is a 0-D int64 or float64 tensor "
+    "holding an integer value (documented: 'Tensor', 'the reference time step'; the cart-pole test passes a float tensor). "
+    "Non-integer reference times are not documented and are not generated",
     "set_refpoint(state=None / input=None) on an NLS only after at least one forward call (there is no 'most recent' state before)",
-    "NLS state/input unbatched 1-D (autograd Jacobian of a batched state is not the documented linearisation)",
-    "the effect of set_refpoint(t given) on systime is undocumented: 'unchanged' and 'set to t' are both accepted",
+    "NLS state/input unbatched 1-D: the NLS docs say nothing about batches and the autograd Jacobian of a batched state "
+    "is not the documented linearisation",
+    "LTI/LTV operands: 'a single matrix or batched matrices ... dimensions must be consistent so that they can be multiplied "
+    "for each channel' is read as: batch shapes that broadcast together (the equations are evaluated with pp.bmv, "
+    "documented as broadcasting)",
+    "the effect of set_refpoint(t given) on systime is undocumented: 'unchanged' and 'set to t' are both accepted, and an "
+    "LTV's matrices are compared at whichever clock value is observed",
+    "the start value of the clock is documented for NLS only ('starting from 0'); for LTI/LTV the reference clock starts "
+    "from the value read after construction",
     "LTV.set_refpoint(t=None) and reading the NLS linearisation after the clock moved following set_refpoint(t=None) "
-    "are generated only once the lead has triaged findings 'ltv_set_refpoint_t_none' / 'nls_ref_t_alias' "
-    "(or with VERIF_C15_INCLUDE=<key,key>)",
+    "(findings F17 / F18, fixed in /repo) are generated and asserted unconditionally",
 ]
 
 LTV_NONE_KEY = "ltv_set_refpoint_t_none"
 ALIAS_KEY = "nls_ref_t_alias"
-
-
-def _status(key):
-    """Two defects were found while building this check (see KNOWN below).  Until the lead has triaged them (entry
-    with this key in known_findings.json) the corresponding calls are not generated / not asserted; once an entry
-    exists they are: status 'open' -> routed through KNOWN, anything else ('fixed') -> asserted like the rest.
-    VERIF_C15_INCLUDE=key[,key] forces 'asserted' (to demonstrate the defect or to test a candidate patch)."""
-    if key in [k.strip() for k in os.environ.get("VERIF_C15_INCLUDE", "").split(",")]:
-        return "forced"
-    for k in load_known():
-        if k.get("key") == key:
-            return k.get("status")
-    return None
 
 
 def _t(a, dtype):
@@ -153,14 +157,16 @@ LIN_NAMES = ("A", "B", "C", "D", "c1", "c2")
 class LinSys:
     """data + system under test + reference access for one LTI / LTV configuration"""
 
-    def __init__(self, kind, n, m, p, batch, mask, has_c1, has_c2, T, dtype, seed):
-        self.kind, self.n, self.m, self.p, self.batch, self.mask, self.T, self.dtype = kind, n, m, p, tuple(batch), mask, T, dtype
+    def __init__(self, kind, n, m, p, shapes, has_c1, has_c2, T, dtype, seed):
+        """shapes: batch shape of each of A, B, C, D, c1, c2, x, u (missing = unbatched); they must broadcast together"""
+        self.kind, self.n, self.m, self.p, self.T, self.dtype = kind, n, m, p, T, dtype
+        self.shapes = {k: tuple(shapes.get(k, ())) for k in LIN_NAMES + ("x", "u")}
         rs = np.random.RandomState(seed % (2 ** 31))
         tdim = (T,) if kind == "ltv" else ()
         dims = {"A": (n, n), "B": (n, m), "C": (p, n), "D": (p, m), "c1": (n,), "c2": (p,)}
         self.np = {}
         for k in LIN_NAMES:
-            b = self.batch if mask.get(k) else ()
+            b = self.shapes[k]
             a = _rnd(rs, b + tdim + dims[k], dtype)
             if (k == "c1" and not has_c1) or (k == "c2" and not has_c2):
                 a = None
@@ -180,8 +186,8 @@ class LinSys:
         return np.take(a, t % self.T, axis=ax)
 
     def draw_xu(self, rs):
-        x = _rnd(rs, (self.batch if self.mask.get("x") else ()) + (self.n,), self.dtype)
-        u = _rnd(rs, (self.batch if self.mask.get("u") else ()) + (self.m,), self.dtype)
+        x = _rnd(rs, self.shapes["x"] + (self.n,), self.dtype)
+        u = _rnd(rs, self.shapes["u"] + (self.m,), self.dtype)
         return x, u
 
     def check_step(self, rec, x, u, t, z, y, tag):
@@ -213,20 +219,56 @@ class LinSys:
                       "%s: property %s is not the matrix of time %d" % (tag, k, t))
 
 
-def _batch_mask(draw, names):
-    batch = draw(st.sampled_from(([], [1], [2], [3], [2], [3])))
+ALL_NAMES = LIN_NAMES + ("x", "u")
+BATCHES = {   # full batch shape of a case; rank >= 2 and rank 3 get a small share of the quick budget
+    "quick": ([], [1], [2], [3], [2], [3], [2], [3], [2, 3], [3, 1], [1, 2], [2, 2, 2]),
+    "thorough": ([], [1], [2], [3], [2], [3], [2, 3], [3, 2], [3, 1], [1, 2], [2, 2], [2, 1, 3], [1, 3, 2], [2, 2, 2])}
+
+
+def _shapes_from_mask(batch, mask):
+    return {k: (list(batch) if mask.get(k) else []) for k in ALL_NAMES}
+
+
+def _batch_shapes(draw, tier):
+    """(full batch shape, mode, batch shape of each of A..c2, x, u).  The LTI / LTV docs: every operand is 'a single
+    matrix or batched matrices', batch dimensions 'consistent so that they can be multiplied for each channel'; the
+    equations are evaluated with pp.bmv, documented as broadcasting.  modes: all / mats / vecs = that group carries
+    the full batch shape, the rest is unbatched; mix = each operand independently full or unbatched; bcast = each
+    operand independently full / unbatched / a trailing part of the full shape / the full shape with some extents
+    replaced by 1 (all broadcast to the full shape or a part of it)."""
+    batch = list(draw(st.sampled_from(BATCHES[tier])))
     if not batch:
-        return batch, {k: False for k in names}
-    mode = draw(st.sampled_from(("all", "mats", "vecs", "mix", "mix")))
+        return batch, "none", {k: [] for k in ALL_NAMES}
+    mode = draw(st.sampled_from(("all", "mats", "vecs", "mix", "mix", "bcast")))
     if mode == "all":
-        mask = {k: True for k in names}
+        mask = {k: True for k in ALL_NAMES}
     elif mode == "mats":
-        mask = {k: k not in ("x", "u") for k in names}
+        mask = {k: k not in ("x", "u") for k in ALL_NAMES}
     elif mode == "vecs":
-        mask = {k: k in ("x", "u") for k in names}
+        mask = {k: k in ("x", "u") for k in ALL_NAMES}
+    elif mode == "mix":
+        mask = {k: draw(st.booleans()) for k in ALL_NAMES}
     else:
-        mask = {k: draw(st.booleans()) for k in names}
-    return batch, mask
+        shapes = {}
+        for k in ALL_NAMES:
+            how = draw(st.sampled_from(("full", "none", "tail", "ones")))
+            if how == "full":
+                shapes[k] = list(batch)
+            elif how == "none":
+                shapes[k] = []
+            elif how == "tail":
+                shapes[k] = list(batch[draw(st.integers(0, len(batch))):])
+            else:
+                shapes[k] = [e if draw(st.booleans()) else 1 for e in batch]
+        return batch, mode, shapes
+    return batch, mode, _shapes_from_mask(batch, mask)
+
+
+def _case_shapes(case):
+    """batch shapes of a lti_ltv case (cases written before 'bshape' existed carry batch + mask only)"""
+    if "bshape" in case:
+        return {k: list(case["bshape"].get(k, [])) for k in ALL_NAMES}
+    return _shapes_from_mask(case["batch"], case["mask"])
 
 
 class LtiLtv(Sub):
@@ -237,9 +279,10 @@ class LtiLtv(Sub):
         @st.composite
         def s(draw):
             kind = draw(st.sampled_from(("lti", "ltv")))
-            batch, mask = _batch_mask(draw, LIN_NAMES + ("x", "u"))
+            batch, bmode, shapes = _batch_shapes(draw, tier)
             return {"kind": kind, "n": draw(st.integers(1, 6)), "m": draw(st.integers(1, 6)), "p": draw(st.integers(1, 6)),
-                    "batch": batch, "mask": mask, "c1": draw(st.booleans()), "c2": draw(st.booleans()),
+                    "batch": batch, "bmode": bmode, "bshape": shapes, "mask": {k: bool(v) for k, v in shapes.items()},
+                    "c1": draw(st.booleans()), "c2": draw(st.booleans()),
                     "T": draw(st.integers(1, 5)) if kind == "ltv" else 1,
                     "t0": draw(st.one_of(st.just(0), st.integers(0, 12))),
                     "t0how": draw(st.sampled_from(("reset", "systime", "systime_tensor"))),
@@ -248,13 +291,21 @@ class LtiLtv(Sub):
         return s()
 
     def valid(self, case):
+        sh = list(_case_shapes(case).values())
         return (all(1 <= case[k] <= 6 for k in "nmp") and case["T"] >= 1 and case["t0"] >= 0 and case["steps"] >= 1
-                and (case["kind"] == "ltv" or case["T"] == 1))
+                and (case["kind"] == "ltv" or case["T"] == 1)
+                and all(len(b) <= 3 and all(1 <= e <= 3 for e in b) for b in sh) and _bcast_ok(*sh))
 
     def oracle(self, case, rec):
-        L = LinSys(case["kind"], case["n"], case["m"], case["p"], case["batch"], case["mask"], case["c1"], case["c2"],
+        shapes = _case_shapes(case)
+        L = LinSys(case["kind"], case["n"], case["m"], case["p"], shapes, case["c1"], case["c2"],
                    case["T"], case["dtype"], case["seed"])
         ck = RD.Clock()
+        # the start value of the clock of an LTI / LTV is not documented (only the NLS docstring says "starting from 0"):
+        # the reference clock starts from the value the new system shows
+        ck.set(_read_time(rec, L.sys, "construction"))
+        if ck.t != 0:
+            rec.label("initial_clock_nonzero")
         t0 = case["t0"]
         if t0 or case["t0how"] != "reset":
             with rec.sut("set start time"):
@@ -276,12 +327,22 @@ class LtiLtv(Sub):
             if not rec.check(got == ck.t, "clock:forward:%s" % case["kind"],
                              "after call %d started at t=%d the system time is %d, expected %d" % (i, tnow, got, ck.t)):
                 return
-        mats_b = any(case["mask"].get(k) for k in "ABCD") and bool(case["batch"])
+        present = {k: tuple(v) for k, v in shapes.items()
+                   if not ((k == "c1" and not case["c1"]) or (k == "c2" and not case["c2"]))}
+        mats_b = any(present[k] for k in "ABCD")
+        vecs_b = bool(present["x"] or present["u"])
+        distinct = {v for v in present.values() if v}
         rec.label(case["kind"], case["dtype"], "batch%s" % case["batch"], "mats_batched" if mats_b else "mats_single",
-                  "c1" if case["c1"] else "no_c1")
+                  "c1" if case["c1"] else "no_c1", "bmode:%s" % case.get("bmode", "mask"),
+                  "batch_rank%d" % max(len(v) for v in present.values()),
+                  "mats%s_vecs%s" % ("B" if mats_b else "-", "B" if vecs_b else "-"))
+        if len({bool(present[k]) for k in "ABCD"}) > 1:
+            rec.label("mats_mixed(batched+unbatched)")
+        if len(distinct) > 1:
+            rec.label("bcast:differing_batch_shapes")
         if mats_b or (case["kind"] == "ltv" and t0 > 0):
             rec.nt(("lin", case["kind"], case["n"], case["m"], case["p"], tuple(case["batch"]),
-                    tuple(sorted(k for k, v in case["mask"].items() if v)), case["c1"], case["c2"], case["dtype"],
+                    tuple(sorted((k, v) for k, v in present.items() if v)), case["c1"], case["c2"], case["dtype"],
                     case["T"], t0 % case["T"]))
 
     def simplify(self, case):
@@ -292,11 +353,16 @@ class LtiLtv(Sub):
         if case["t0"] > 0:
             yield dict(case, t0=0)
             yield dict(case, t0=case["t0"] - 1)
-        if case["batch"]:
-            yield dict(case, batch=[], mask={k: False for k in case["mask"]})
-            for k, v in case["mask"].items():
+        shapes = _case_shapes(case)
+        if any(shapes.values()):
+            def with_shapes(sh):
+                return dict(case, bshape=sh, mask={k: bool(v) for k, v in sh.items()})
+            yield dict(with_shapes({k: [] for k in shapes}), batch=[], bmode="none")
+            yield with_shapes({k: v[1:] if len(v) == max(len(w) for w in shapes.values()) else v for k, v in shapes.items()})
+            for k, v in shapes.items():
                 if v:
-                    yield dict(case, mask=dict(case["mask"], **{k: False}))
+                    yield with_shapes(dict(shapes, **{k: []}))
+                    yield with_shapes(dict(shapes, **{k: v[1:]}))
         for k in ("c1", "c2"):
             if case[k]:
                 yield dict(case, **{k: False})
@@ -405,8 +471,8 @@ TORCH_NS = {"sin": torch.sin, "cos": torch.cos}
 
 
 @functools.lru_cache(maxsize=256)
-def _torch_fn(key):
-    M = RD._model_cached(key)
+def _torch_fn(key, light=False):
+    M = RD._model_cached(key, light)
     return sp.lambdify(list(M.xs) + list(M.us) + [M.t], list(M.F) + list(M.G), modules=[TORCH_NS], cse=False)
 
 
@@ -415,11 +481,11 @@ class GenNLS(pp.module.NLS):
     forward and as a 1-element 1-D tensor (or the buffer) in set_refpoint / A / B / C / D: t is reduced to a 0-D
     tensor of the state's dtype first (DESIGN 2.6 trap 11)."""
 
-    def __init__(self, spec):
+    def __init__(self, spec, light=False):
         super().__init__()
         key = json.dumps(spec, sort_keys=True)
-        self._M = RD._model_cached(key)
-        self._fn = _torch_fn(key)
+        self._M = RD._model_cached(key, light)
+        self._fn = _torch_fn(key, light)
 
     def _ev(self, state, input, t):
         tt = t.reshape(()).to(state.dtype)
@@ -433,23 +499,38 @@ class GenNLS(pp.module.NLS):
         return torch.stack(self._ev(state, input, t)[self._M.n:], -1)
 
 
-def _vec(v):
-    return torch.tensor([float(z) for z in v], dtype=torch.float64)
+def _vec(v, dtype="float64"):
+    return torch.tensor([float(z) for z in v], dtype=tu.TD[dtype])
+
+
+def _r(a, dtype):
+    """the values as representable in dtype (float64 array)"""
+    a = np.asarray(a, dtype=np.float64)
+    return a.astype(np.float32).astype(np.float64) if dtype == "float32" else a
+
+
+def _sfx(dtype):
+    return "" if dtype == "float64" else ":" + dtype
 
 
 def _time_tensor(t, kind):
     return torch.tensor(float(t), dtype=torch.float64) if kind == "f64" else torch.tensor(int(t), dtype=torch.int64)
 
 
-def check_nls_forward(rec, spec, M, x, u, tnow, z, y, tag):
-    eps = tu.EPS["float64"]
+def check_nls_forward(rec, spec, M, x, u, tnow, z, y, tag, dtype="float64"):
+    eps = tu.EPS[dtype]
     fe, ge = M.fg(x, u, tnow)
-    fs = RD.eval_components(spec["f"], x, u, tnow, absolute=True)
-    gs = RD.eval_components(spec["g"], x, u, tnow, absolute=True)
-    r1 = _close(rec, tu.npy(z), fe, 64 * eps * (fs + 1.0), "nls:forward:f", "%s next state at t=%d" % (tag, tnow))
-    r2 = _close(rec, tu.npy(y), ge, 64 * eps * (gs + 1.0), "nls:forward:g", "%s observation at t=%d" % (tag, tnow))
-    _note(rec, "fwd_err/tol", r1)
-    _note(rec, "fwd_err/tol", r2)
+    if dtype == "float64":
+        fs = RD.eval_components(spec["f"], x, u, tnow, absolute=True)
+        gs = RD.eval_components(spec["g"], x, u, tnow, absolute=True)
+        tf, tg = 64 * eps * (fs + 1.0), 64 * eps * (gs + 1.0)
+    else:   # derived: 2 eps * first-order round-off scale of the term list (RD.roundoff_scale)
+        tf = 2 * eps * RD.roundoff_scale(spec["f"], x, u, tnow) + 1e-30
+        tg = 2 * eps * RD.roundoff_scale(spec["g"], x, u, tnow) + 1e-30
+    r1 = _close(rec, tu.npy(z), fe, tf, "nls:forward:f" + _sfx(dtype), "%s next state at t=%d" % (tag, tnow))
+    r2 = _close(rec, tu.npy(y), ge, tg, "nls:forward:g" + _sfx(dtype), "%s observation at t=%d" % (tag, tnow))
+    _note(rec, "fwd_err/tol" + _sfx(dtype), r1)
+    _note(rec, "fwd_err/tol" + _sfx(dtype), r2)
 
 
 def read_linearisation(rec, system):
@@ -460,10 +541,16 @@ def read_linearisation(rec, system):
     return out
 
 
-def check_linearisation(rec, spec, M, lin, xs, us, ts, bucket="nls", taylor=None):
-    """lin = matrices read from pypose; (xs, us, ts) the reference point the harness tracked"""
-    eps = tu.EPS["float64"]
+def check_linearisation(rec, spec, M, lin, xs, us, ts, bucket="nls", taylor=None, dtype="float64"):
+    """lin = matrices read from pypose; (xs, us, ts) the reference point the harness tracked.
+    float64: Jacobians within 1e-9 max(1,|J|), affine identity within 64 eps (sum|terms| + |A||x*|+|B||u*|+|c1| + 1).
+    float32 (derived): Jacobian entries within 2 eps S_jac (RD.jac_roundoff_scale: product-rule paths as
+    back-propagation multiplies them); f*, g* within 2 eps S (RD.roundoff_scale), and c1 = f* - A x* - B u* followed
+    by the harness's exact A x* + B u* + c1 adds at most 8 (n+m+2) eps (|A||x*|+|B||u*|+|c1|)."""
+    eps = tu.EPS[dtype]
+    f32 = dtype != "float64"
     n, m, p = M.n, M.m, M.p
+    bucket = bucket + _sfx(dtype)
     o = M.values(xs, us, ts)
     shapes = {"A": (n, n), "B": (n, m), "C": (p, n), "D": (p, m), "c1": (n,), "c2": (p,)}
     for k in LIN_NAMES:
@@ -471,24 +558,34 @@ def check_linearisation(rec, spec, M, lin, xs, us, ts, bucket="nls", taylor=None
                          "%s has shape %s, expected %s" % (k, lin[k].shape, shapes[k])):
             return False
     ok = True
+    xs, us = np.asarray(xs, dtype=np.float64), np.asarray(us, dtype=np.float64)
+    jtol = {}
+    if f32:
+        jtol["A"], jtol["B"] = RD.jac_roundoff_scale(spec["f"], n, m, xs, us, ts)
+        jtol["C"], jtol["D"] = RD.jac_roundoff_scale(spec["g"], n, m, xs, us, ts)
+        jtol = {k: 2 * eps * v + 1e-30 for k, v in jtol.items()}
     for k in "ABCD":
-        tol = 1e-9 * max(1.0, float(np.abs(o[k]).max()))
+        tol = jtol[k] if f32 else 1e-9 * max(1.0, float(np.abs(o[k]).max()))
         r = _close(rec, lin[k], o[k], tol, bucket + ":jac:" + k,
                    "%s vs symbolic Jacobian at x*=%s u*=%s t*=%s" % (k, [float(v) for v in xs], [float(v) for v in us], ts))
-        _note(rec, "jac_err/tol", r)
+        _note(rec, "jac_err/tol" + _sfx(dtype), r)
         ok = ok and r is not None and r <= 1
-    xs, us = np.asarray(xs, dtype=np.float64), np.asarray(us, dtype=np.float64)
-    fs = RD.eval_components(spec["f"], xs, us, ts, absolute=True)
-    gs = RD.eval_components(spec["g"], xs, us, ts, absolute=True)
-    tol_f = 64 * eps * (fs + RD.affine_mag(lin["A"], xs, lin["B"], us, lin["c1"]) + 1.0)
-    tol_g = 64 * eps * (gs + RD.affine_mag(lin["C"], xs, lin["D"], us, lin["c2"]) + 1.0)
+    if f32:
+        c = 8 * (n + m + 2) * eps
+        tol_f = 2 * eps * RD.roundoff_scale(spec["f"], xs, us, ts) + c * RD.affine_mag(lin["A"], xs, lin["B"], us, lin["c1"]) + 1e-30
+        tol_g = 2 * eps * RD.roundoff_scale(spec["g"], xs, us, ts) + c * RD.affine_mag(lin["C"], xs, lin["D"], us, lin["c2"]) + 1e-30
+    else:
+        fs = RD.eval_components(spec["f"], xs, us, ts, absolute=True)
+        gs = RD.eval_components(spec["g"], xs, us, ts, absolute=True)
+        tol_f = 64 * eps * (fs + RD.affine_mag(lin["A"], xs, lin["B"], us, lin["c1"]) + 1.0)
+        tol_g = 64 * eps * (gs + RD.affine_mag(lin["C"], xs, lin["D"], us, lin["c2"]) + 1.0)
     r = _close(rec, RD.affine(lin["A"], xs, lin["B"], us, lin["c1"]), o["f"], tol_f, bucket + ":affine_at_ref:f",
                "A x* + B u* + c1 vs f(x*,u*,t*) at x*=%s u*=%s t*=%s" % ([float(v) for v in xs], [float(v) for v in us], ts))
-    _note(rec, "ref_err/tol", r)
+    _note(rec, "ref_err/tol" + _sfx(dtype), r)
     ok = ok and r is not None and r <= 1
     r = _close(rec, RD.affine(lin["C"], xs, lin["D"], us, lin["c2"]), o["g"], tol_g, bucket + ":affine_at_ref:g",
                "C x* + D u* + c2 vs g(x*,u*,t*) at x*=%s u*=%s t*=%s" % ([float(v) for v in xs], [float(v) for v in us], ts))
-    _note(rec, "ref_err/tol", r)
+    _note(rec, "ref_err/tol" + _sfx(dtype), r)
     ok = ok and r is not None and r <= 1
     if taylor is None:
         return ok
@@ -505,10 +602,14 @@ def check_linearisation(rec, spec, M, lin, xs, us, ts, bucket="nls", taylor=None
         if w == "f":
             return float(np.linalg.norm(fe - RD.affine(lin["A"], xs + dd * dx, lin["B"], us + dd * du, lin["c1"])))
         return float(np.linalg.norm(ge - RD.affine(lin["C"], xs + dd * dx, lin["D"], us + dd * du, lin["c2"])))
-    for w, tolv in (("f", tol_f), ("g", tol_g)):
+    for w, tolv, jx, ju in (("f", tol_f, "A", "B"), ("g", tol_g, "C", "D")):
         b = lb[w]
-        ro = 4.0 * float(np.linalg.norm(tolv))
+        ro0 = 4.0 * float(np.linalg.norm(tolv))
+        # float32: the matrices read carry round-off dJ (|dJ| <= jtol); at distance dd it shifts the affine model by
+        # at most dd (|dJx| |dx| + |dJu| |du|) <= dd (|jtol_x|_F + |jtol_u|_F)   (|dx|, |du| <= 1)
+        jro = float(np.linalg.norm(jtol[jx]) + np.linalg.norm(jtol[ju])) if f32 else 0.0
         for dd in (delta, delta / 4):
+            ro = ro0 + dd * jro
             bound = 1.1 * 0.5 * dd * dd * (b["m2"] + b["m3"] * delta / 32) + ro
             e = err(w, dd)
             _note(rec, "taylor_E/bound(rigorous;0.909=equality)", e / bound)
@@ -520,12 +621,15 @@ def check_linearisation(rec, spec, M, lin, xs, us, ts, bucket="nls", taylor=None
             continue
         dr = delta if b["m3"] <= 0 else min(delta, 0.75 * b["m2_0"] / b["m3"])
         e1 = err(w, dr)
-        if e1 < 1e-9:
+        # in this regime the exact ratio is <= 1.0625 / (16 * 0.75) < 0.089; with both errors known to +-r (r = round-off
+        # of the affine model) the measured one is <= (0.089 + 1/63) / (1 - 1/63) < 0.107 when r <= E/64: float32 cases
+        # with a smaller E are skipped (float64: r ~ 1e-14 << 1e-9)
+        if e1 < 1e-9 or (f32 and e1 < 64.0 * (ro0 + dr * jro)):
             rec.label("ratio:%s:skipped_small" % w)
             continue
         ratio = err(w, dr / 4) / e1
         rec.label("ratio:%s:tested" % w)
-        _note(rec, "ratio/0.13", ratio / 0.13)
+        _note(rec, "ratio/0.13" + _sfx(dtype), ratio / 0.13)
         rec.check(ratio <= 0.13, bucket + ":second_order:" + w,
                   "affine model error is not second order for %s: E(%.3g)=%.3g, E(%.3g)=%.3g, ratio %.3g > 1/8"
                   % (w, dr, e1, dr / 4, ratio * e1, ratio))
@@ -605,12 +709,10 @@ def _simplify_spec(spec):
 
 class Nls(Sub):
     name = "nls"
-    n = {"quick": 240, "thorough": 8000}
+    n = {"quick": 300, "thorough": 10000}
     budget_s = {"quick": 150.0, "thorough": 3000.0}
 
     def strategy(self, tier):
-        alias = _status(ALIAS_KEY) is not None
-
         @st.composite
         def s(draw):
             spec = _spec(draw)
@@ -619,17 +721,15 @@ class Nls(Sub):
             if not (has[0] and has[1]):
                 pre = max(pre, 1)
             post = draw(st.sampled_from((0, 0, 1)))
-            if not has[2] and not alias:
-                post = 0
             tc = draw(st.integers(0, 30))
             tkind = draw(st.sampled_from(("i64", "i64", "f64")))
             tstar = tc + pre                      # the system time at which set_refpoint will be called
             if draw(st.sampled_from((True, True, True, False))):
                 off = draw(st.integers(1, 15))
                 tstar = tstar - off if (draw(st.booleans()) and tstar - off >= 0) else tstar + off
-            if tkind == "f64":
-                tstar = tstar + draw(st.sampled_from((0.0, 0.5, 0.25)))
-            return {"spec": spec, "xs": _point(draw, spec["n"]), "us": _point(draw, spec["m"]), "tstar": tstar, "tkind": tkind,
+            # tkind "f64": the same integer value handed over as a float64 tensor (non-integer times are not documented)
+            return {"spec": spec, "dtype": draw(st.sampled_from(("float64", "float64", "float32"))),
+                    "xs": _point(draw, spec["n"]), "us": _point(draw, spec["m"]), "tstar": tstar, "tkind": tkind,
                     "tc": tc, "tc_how": draw(st.sampled_from(("reset", "systime", "systime_tensor"))), "pre": pre, "has": has,
                     "post": post, "delta": draw(st.sampled_from((0.1, 0.05, 0.02, 0.01))),
                     "seed": draw(st.integers(0, 2 ** 31 - 1))}
@@ -640,17 +740,20 @@ class Nls(Sub):
         return (RD.spec_ok(sp_) and len(case["xs"]) == sp_["n"] and len(case["us"]) == sp_["m"]
                 and all(abs(v) <= 4 for v in case["xs"] + case["us"])
                 and (case["pre"] >= 1 or (case["has"][0] and case["has"][1])) and 0 <= case["tstar"] <= 64
-                and (case["tkind"] == "f64" or float(case["tstar"]).is_integer()) and 0 <= case["tc"] <= 64
-                and case["delta"] in (0.1, 0.05, 0.02, 0.01)
-                and (case["has"][2] or not case["post"] or _status(ALIAS_KEY) is not None))
+                and float(case["tstar"]).is_integer() and 0 <= case["tc"] <= 64
+                and case["delta"] in (0.1, 0.05, 0.02, 0.01) and case.get("dtype", "float64") in tu.TD)
 
     def oracle(self, case, rec):
         spec = case["spec"]
+        dtype = case.get("dtype", "float64")
         M = RD.model(spec)
         n, m = M.n, M.m
         system = GenNLS(spec)
         ck = RD.Clock()
         rs = np.random.RandomState(case["seed"] % (2 ** 31))
+        got = _read_time(rec, system, "construction")       # NLS docstring: "The system timestamp (starting from **0**)"
+        if not rec.check(got == 0, "clock:initial:nls", "a new NLS starts at time %d" % got):
+            return
         if case["tc"] or case["tc_how"] != "reset":
             with rec.sut("set current time"):
                 if case["tc_how"] == "reset":
@@ -664,27 +767,27 @@ class Nls(Sub):
 
         def forward(tag):
             nonlocal last
-            x, u = rs.uniform(-2, 2, n), rs.uniform(-2, 2, m)
+            x, u = _r(rs.uniform(-2, 2, n), dtype), _r(rs.uniform(-2, 2, m), dtype)
             tnow = ck.call()
             with rec.sut("NLS forward"):
-                z, y = system(_vec(x), _vec(u))
-            check_nls_forward(rec, spec, M, x, u, tnow, z, y, tag)
+                z, y = system(_vec(x, dtype), _vec(u, dtype))
+            check_nls_forward(rec, spec, M, x, u, tnow, z, y, tag, dtype)
             got = _read_time(rec, system, tag)
             rec.check(got == ck.t, "clock:forward:nls", "%s started at t=%d: system time is %d, expected %d" % (tag, tnow, got, ck.t))
             last = (x, u)
         for i in range(case["pre"]):
             forward("pre-call %d" % i)
         hs, hi, ht = case["has"]
-        xs = np.array(case["xs"], dtype=np.float64) if hs else last[0]
-        us = np.array(case["us"], dtype=np.float64) if hi else last[1]
+        xs = _r(case["xs"], dtype) if hs else last[0]
+        us = _r(case["us"], dtype) if hi else last[1]
         ts = (float(case["tstar"]) if case["tkind"] == "f64" else int(case["tstar"])) if ht else ck.t
         tcur = ck.t
         with rec.sut("NLS.set_refpoint"):
-            r = system.set_refpoint(state=_vec(xs) if hs else None, input=_vec(us) if hi else None,
+            r = system.set_refpoint(state=_vec(xs, dtype) if hs else None, input=_vec(us, dtype) if hi else None,
                                     t=_time_tensor(case["tstar"], case["tkind"]) if ht else None)
-        rec.check(r is system, "refpoint:return", "set_refpoint did not return the module")
+        rec.check(r is system, "refpoint:return", "set_refpoint did not return the module")   # documented: "Returns: The self module"
         got = _read_time(rec, system, "set_refpoint")
-        accept = {tcur} | ({int(ts)} if ht and float(ts).is_integer() else set())
+        accept = {tcur} | ({int(ts)} if ht else set())
         if not rec.check(got in accept, "clock:refpoint:nls", "system time %d after set_refpoint at time %d with t=%s"
                          % (got, tcur, ts if ht else None)):
             return
@@ -694,14 +797,15 @@ class Nls(Sub):
         lin = read_linearisation(rec, system)
         stale = (not ht) and ck.t != tcur
         check_linearisation(rec, spec, M, lin, xs, us, ts, bucket="nls:stale_ref_time" if stale else "nls",
-                            taylor=(case["delta"], case["seed"] // 3 + 1))
+                            taylor=(case["delta"], case["seed"] // 3 + 1), dtype=dtype)
         tdep = M.f_tdep or M.g_tdep
+        rec.label(dtype, "stale_ref_time(t=None,clock moved)" if stale else "ref_time_fresh")
         rec.label("tdep" if tdep else "autonomous", "has%d%d%d" % (hs, hi, ht), "t*:" + case["tkind"], "post%d" % case["post"],
                   "zero_state" if not np.any(xs) else "state", "zero_input" if not np.any(us) else "input",
                   "t*!=t" if ts != tcur else "t*==t")
         if tdep and ts != tcur:
             rec.nt(("nls", n, m, M.p, hs, hi, ht, case["tkind"], bool(np.any(xs)), bool(np.any(us)), case["post"],
-                    _atom_kinds(spec), case["pre"]))
+                    _atom_kinds(spec), case["pre"], dtype))
 
     def simplify(self, case):
         for k in ("pre", "post"):
@@ -713,10 +817,12 @@ class Nls(Sub):
             yield dict(case, spec=sp_)
         if case["tc"]:
             yield dict(case, tc=0, tc_how="reset")
+        if case.get("dtype", "float64") != "float64":
+            yield dict(case, dtype="float64")
         if case["tkind"] == "f64":
             yield dict(case, tkind="i64", tstar=int(case["tstar"]))
         if case["tstar"]:
-            yield dict(case, tstar=0 if case["tkind"] == "i64" else 0.0)
+            yield dict(case, tstar=0)
         if any(case["xs"]):
             yield dict(case, xs=[0.0] * len(case["xs"]))
         if any(case["us"]):
@@ -754,7 +860,6 @@ RULE_FAMILY = {"fwd": "forward", "reset": "reset(t)", "reset0": "reset()", "syst
 def _ops_valid(kind, ops):
     """domain of the op language (used for generation-by-construction and by the shrinker)"""
     forwarded = refset = False
-    ltv_none = _status(LTV_NONE_KEY) is not None
     for op in ops:
         k = op[0]
         if k == "fwd":
@@ -769,8 +874,6 @@ def _ops_valid(kind, ops):
         elif k == "refpoint":
             hs, hi, t = op[1], op[2], op[3]
             if kind == "nls" and not forwarded and not (hs and hi):
-                return False
-            if kind == "ltv" and t is None and not ltv_none:
                 return False
             if t is not None and not (isinstance(t, int) and 0 <= t <= 64):
                 return False
@@ -790,19 +893,23 @@ class ClockHist(Sub):
     budget_s = {"quick": 150.0, "thorough": 3000.0}
 
     def strategy(self, tier):
-        ltv_none = _status(LTV_NONE_KEY) is not None
         maxlen = 24 if tier == "quick" else 60
+        tree_share = (0, 0, 0, 0, 0, 1) if tier == "quick" else (0, 0, 1)      # NLS cases on a random expression tree
 
         @st.composite
         def s(draw):
             kind = draw(st.sampled_from(("lti", "ltv", "nls", "nls")))
             case = {"kind": kind, "seed": draw(st.integers(0, 2 ** 31 - 1))}
             if kind == "nls":
-                case["fn"] = draw(st.integers(0, len(NLS_LIB) - 1))
+                if draw(st.sampled_from(tree_share)):
+                    case["spec"] = _spec(draw, maxdim=3)
+                else:
+                    case["fn"] = draw(st.integers(0, len(NLS_LIB) - 1))
             else:
                 case.update(n=draw(st.integers(1, 3)), m=draw(st.integers(1, 3)), p=draw(st.integers(1, 3)),
-                            batch=draw(st.sampled_from(([], [], [2]))), T=draw(st.integers(1, 4)) if kind == "ltv" else 1,
-                            c=draw(st.booleans()))
+                            batch=draw(st.sampled_from(([], [], [], [2], [2], [3, 2]))),
+                            bmode=draw(st.sampled_from(("all", "all", "mats", "vecs"))),
+                            T=draw(st.integers(1, 4)) if kind == "ltv" else 1, c=draw(st.booleans()))
             tval = st.one_of(st.integers(0, 5), st.integers(0, 40))
             ops, forwarded, refset = [], False, False
             for _ in range(draw(st.integers(1, maxlen))):
@@ -823,8 +930,6 @@ class ClockHist(Sub):
                     t = draw(st.one_of(st.none(), tval, tval))
                     if kind == "nls" and not forwarded:
                         hs = hi = 1
-                    if kind == "ltv" and t is None and not ltv_none:
-                        t = draw(tval)
                     ops.append(["refpoint", hs, hi, t, draw(st.integers(0, 9999))])
                     refset = True
                 else:
@@ -835,25 +940,30 @@ class ClockHist(Sub):
 
     def valid(self, case):
         if case["kind"] == "nls":
-            if not 0 <= case.get("fn", -1) < len(NLS_LIB):
+            if "spec" in case:
+                if not RD.spec_ok(case["spec"]):
+                    return False
+            elif not 0 <= case.get("fn", -1) < len(NLS_LIB):
                 return False
-        elif not (all(1 <= case[k] <= 3 for k in "nmp") and case["T"] >= 1):
+        elif not (all(1 <= case[k] <= 3 for k in "nmp") and case["T"] >= 1 and len(case["batch"]) <= 3
+                  and all(1 <= e <= 3 for e in case["batch"]) and case.get("bmode", "all") in ("all", "mats", "vecs")):
             return False
         return len(case["ops"]) >= 1 and _ops_valid(case["kind"], case["ops"])
 
     def oracle(self, case, rec):
         kind = case["kind"]
-        alias_checked = _status(ALIAS_KEY) is not None
         if kind == "nls":
-            spec = NLS_LIB[case["fn"]]
-            M = RD.model(spec)
-            system = GenNLS(spec)
+            tree = "spec" in case
+            spec = case["spec"] if tree else NLS_LIB[case["fn"]]
+            M = RD.model(spec, light=True)           # values and Jacobians only (no Taylor test in this sub-check)
+            system = GenNLS(spec, light=True)
             n, m = M.n, M.m
             L = None
         else:
-            mask = {k: bool(case["batch"]) for k in LIN_NAMES + ("x", "u")}
-            L = LinSys(kind, case["n"], case["m"], case["p"], case["batch"], mask, case["c"], case["c"], case["T"],
-                       "float64", case["seed"])
+            bmode = case.get("bmode", "all")
+            mask = {k: bool(case["batch"]) and (bmode == "all" or (bmode == "vecs") == (k in ("x", "u"))) for k in ALL_NAMES}
+            L = LinSys(kind, case["n"], case["m"], case["p"], _shapes_from_mask(case["batch"], mask), case["c"], case["c"],
+                       case["T"], "float64", case["seed"])
             system = L.sys
             n, m = case["n"], case["m"]
         ck = RD.Clock()
@@ -862,8 +972,23 @@ class ClockHist(Sub):
         ref = None             # NLS: tracked reference point (x*, u*, t*, time_was_none, clock_at_set)
         used, patterns = set(), set()
         got = _read_time(rec, system, "construction")
-        if not rec.check(got == 0, "clock:initial", "a new system starts at time %d" % got):
-            return
+        if kind == "nls":      # NLS docstring: "The system timestamp (starting from **0**)"; not stated for LTI / LTV
+            if not rec.check(got == 0, "clock:initial", "a new NLS starts at time %d" % got):
+                return
+        else:
+            if got != 0:
+                rec.label("initial_clock_nonzero")
+            ck.set(got)
+
+        def check_reset_return(r, tset, what):
+            # the NLS docstring example chains it (`system = Floquet().reset(t = step)` and then uses `system`): the value
+            # returned must be usable as the system at that time; identity is what pypose does, not more is documented
+            ok = r is system
+            if not ok and isinstance(r, type(system)):
+                with rec.sut("systime of the object returned by " + what):
+                    ok = int(r.systime) == tset
+            rec.check(ok, "reset:return", "%s did not return the system (the NLS docstring example chains it): %s"
+                      % (what, type(r).__name__))
         for idx, op in enumerate(case["ops"]):
             k = op[0]
             tag = "op %d %s" % (idx, op)
@@ -895,12 +1020,12 @@ class ClockHist(Sub):
                     targ = op[1]
                 with rec.sut("reset(t)"):
                     r = system.reset(targ)
-                rec.check(r is system, "reset:return", "reset(t) did not return the module (the NLS example chains it)")
+                check_reset_return(r, op[1], "reset(t)")
                 ck.set(op[1])
             elif k == "reset0":
                 with rec.sut("reset()"):
                     r = system.reset()
-                rec.check(r is system, "reset:return", "reset() did not return the module")
+                check_reset_return(r, 0, "reset()")
                 ck.set(0)
             elif k == "systime":
                 with rec.sut("systime = t"):
@@ -922,7 +1047,7 @@ class ClockHist(Sub):
                 with rec.sut("%s.set_refpoint" % kind.upper()):
                     r = system.set_refpoint(state=sa if hs else None, input=ia if hi else None,
                                             t=None if t is None else torch.tensor(t))
-                rec.check(r is system, "refpoint:return", "set_refpoint did not return the module")
+                rec.check(r is system, "refpoint:return", "set_refpoint did not return the module")   # documented: "Returns: The self module"
                 patterns.add((hs, hi, int(t is not None)))
                 got = _read_time(rec, system, tag)
                 accept = {ck.t} if t is None else {ck.t, t}
@@ -930,8 +1055,12 @@ class ClockHist(Sub):
                                  "%s: system time is %d after set_refpoint at time %d" % (tag, got, ck.t)):
                     return
                 ck.set(got)
-                if kind == "ltv" and t is not None:
-                    L.check_matrices(rec, t, tag + " (reference time)")
+                if t is not None:
+                    rec.label("refpoint_t:%s:%s" % (kind, "same" if t == before else ("clock=t" if got == t else "clock_unchanged")))
+                if kind != "nls":
+                    # the matrices an LTV shows are those of its clock; which of the two accepted clock readings holds
+                    # is undocumented, so they are compared at the clock value actually observed
+                    L.check_matrices(rec, got, tag + " (after set_refpoint)")
                 if kind == "nls":
                     ref = (xs if hs else last[0], us if hi else last[1], before if t is None else t, t is None, before)
                     check_linearisation(rec, spec, M, read_linearisation(rec, system), ref[0], ref[1], ref[2],
@@ -939,11 +1068,9 @@ class ClockHist(Sub):
             else:   # "lin": observe the linear(ised) model
                 if kind == "nls":
                     stale = ref[3] and ck.t != ref[4]
-                    if stale and not alias_checked:
-                        rec.label("lin:skipped_pending_" + ALIAS_KEY)
-                    else:
-                        check_linearisation(rec, spec, M, read_linearisation(rec, system), ref[0], ref[1], ref[2],
-                                            bucket="nls:stale_ref_time" if stale else "nls")
+                    rec.label("lin:stale_ref_time(t=None,clock moved)" if stale else "lin:ref_time_fresh")
+                    check_linearisation(rec, spec, M, read_linearisation(rec, system), ref[0], ref[1], ref[2],
+                                        bucket="nls:stale_ref_time" if stale else "nls")
                 else:
                     L.check_matrices(rec, ck.t, tag)
             if k in RULE_FAMILY:
@@ -955,10 +1082,16 @@ class ClockHist(Sub):
                                  "%s at time %d: system time is %d, reference clock says %d" % (tag, before, got, ck.t)):
                     return
         rec.label(kind, "rules%d" % len(used), "len%d" % (8 * (len(case["ops"]) // 8)))
+        if kind == "nls":
+            rec.label("nls:tree" if tree else "nls:lib", "nls:" + ("tdep" if (M.f_tdep or M.g_tdep) else "autonomous"))
+            src = ("tree", M.n, M.m, M.p, _atom_kinds(spec)) if tree else case.get("fn")
+        else:
+            rec.label("batch%s:%s" % (case["batch"], case.get("bmode", "all") if case["batch"] else "none"))
+            src = (tuple(case["batch"]), case.get("bmode", "all") if case["batch"] else "none")
         for p_ in patterns:
             rec.label("refpoint%d%d%d" % p_)
         if len(used) >= 3:
-            rec.nt(("clock", kind, case.get("fn"), tuple(case.get("batch", ())), tuple(sorted(used)), tuple(sorted(patterns)),
+            rec.nt(("clock", kind, src, tuple(sorted(used)), tuple(sorted(patterns)),
                     min(len(case["ops"]), 24) // 4, any(o[0] == "lin" for o in case["ops"])))
 
     def simplify(self, case):
@@ -978,7 +1111,10 @@ class ClockHist(Sub):
             if op[0] in ("fwd",) and op[1]:
                 yield dict(case, ops=ops[:i] + [["fwd", 0]] + ops[i + 1:])
         if case["kind"] == "nls":
-            if case["fn"] != 0:
+            if "spec" in case:
+                for sp_ in _simplify_spec(case["spec"]):
+                    yield dict(case, spec=sp_)
+            elif case["fn"] != 0:
                 yield dict(case, fn=0)
         else:
             for k in "nmp":
@@ -986,20 +1122,25 @@ class ClockHist(Sub):
                     yield dict(case, **{k: 1})
             if case["batch"]:
                 yield dict(case, batch=[])
+                yield dict(case, batch=case["batch"][1:])
+                if case.get("bmode", "all") != "all":
+                    yield dict(case, bmode="all")
             if case["kind"] == "ltv" and case["T"] > 1:
                 yield dict(case, T=case["T"] - 1)
         if case["seed"]:
             yield dict(case, seed=0)
 
     def size(self, case):
-        return len(case["ops"]) * 1000 + len(json.dumps(case))
+        return len(case["ops"]) * 1000 + len(json.dumps(case)) + (4 * len(json.dumps(case["spec"])) if "spec" in case else 0)
 
 
 SUBS = [LtiLtv(), ClockHist(), Nls(), Linalg()]
 
 
 # =====================================================================================================
-# findings of this check, pending the lead's triage (see _status)
+# the two findings of this check (F17, F18; fixed in /repo, probes in replays/C15/regress).  The regions are generated and
+# asserted unconditionally; these predicates only matter if the lead re-opens an entry in known_findings.json (the
+# harness then reports matching failures as KNOWN-FINDING instead of VIOLATION).
 KNOWN = {
     LTV_NONE_KEY: {
         "probe": ("clock", {"kind": "ltv", "seed": 0, "n": 1, "m": 1, "p": 1, "batch": [], "T": 1, "c": False,
@@ -1028,8 +1169,16 @@ def selftest():
             assert np.allclose(tu.npy(s.state_transition(_vec(x), _vec(u), tt)), fe, rtol=0, atol=1e-12)
             assert np.allclose(tu.npy(s.observation(_vec(x), _vec(u), tt)), ge, rtol=0, atol=1e-12)
         assert np.allclose(fe, RD.eval_components(spec["f"], x, u, 7), rtol=0, atol=1e-12)
+    # float32 states: same functions, same dtype out, within the derived round-off tolerance
+    for spec in NLS_LIB[:3]:
+        M, s32 = RD.model(spec, light=True), GenNLS(spec, light=True)
+        rs = np.random.RandomState(6)
+        x, u = _r(rs.uniform(-2, 2, M.n), "float32"), _r(rs.uniform(-2, 2, M.m), "float32")
+        z = s32.state_transition(_vec(x, "float32"), _vec(u, "float32"), torch.tensor(37))
+        assert z.dtype == torch.float32
+        assert np.all(np.abs(tu.npy(z) - M.fg(x, u, 37)[0]) <= 2 * tu.EPS["float32"] * RD.roundoff_scale(spec["f"], x, u, 37))
     # the time-indexed reference picks the right slice
-    L = LinSys("ltv", 2, 1, 1, (2,), {k: True for k in LIN_NAMES + ("x", "u")}, True, True, 3, "float64", 1)
+    L = LinSys("ltv", 2, 1, 1, {k: (2,) for k in ALL_NAMES}, True, True, 3, "float64", 1)
     assert np.array_equal(L.at("A", 4), L.np["A"][:, 1]) and np.array_equal(L.at("c1", 5), L.np["c1"][:, 2])
     # the ratio criterion separates first- from second-order models: E = a d^2 gives 1/16, E = c d gives 1/4
     assert (0.25 ** 2) <= 0.13 < 0.25
